@@ -28,3 +28,50 @@ Example C05_example_final_state :
   [(TCtl, mkE 1000 1000 m600 false); (TDir, mkE 1000 1000 m700 true)].
 Proof. exact ex_final_state. Qed.
 Print Assumptions C05_example_final_state.
+
+(* whose requests reach msg_process.  [LForeign tr filt] = a process that is not the connection's peer sends a
+   well-formed request to the connection's request address (see IpcAdmitModel.v); [foreign_blocked] = it cannot get
+   through: shm transport, or socket transport with fixes/C05-sock-request-sender-check.patch.  Any interleaving, any
+   number of foreign datagrams and of the peer's own sends: msg_process is never invoked for a foreign datagram, and at
+   most once per request the connection's own peer sent *)
+Theorem C05_msg_only_from_own_peer : forall en l k,
+  forallb foreign_blocked (proj k l) = true ->
+  ~ In EvMsgForeign (l_log (run en w_empty l k)) /\
+  (nmsg (l_log (run en w_empty l k)) <= npeer_sends (proj k l))%nat.
+Proof. exact own_peer_only_global. Qed.
+Print Assumptions C05_msg_only_from_own_peer.
+
+(* without the sender check the statement is false on the socket transport (known finding C05-sock-dgram-injection /
+   its repair): an accepted peer that sends nothing, one foreign datagram, msg_process runs; with the check, or on
+   shm, the same trace is harmless *)
+Theorem C05_msg_only_from_own_peer_unfiltered_refuted :
+  In EvMsgForeign (l_log (lrun root_env_022 l_empty foreign_witness)) /\ npeer_sends foreign_witness = 0%nat /\
+  ~ In EvMsgForeign (l_log (lrun root_env_022 l_empty (admission_ops Fixed Sock peer_1000 ++ [LForeign Sock true]))) /\
+  ~ In EvMsgForeign (l_log (lrun root_env_022 l_empty (admission_ops Fixed Shm peer_1000 ++ [LForeign Shm false]))).
+Proof. exact foreign_refuted. Qed.
+Print Assumptions C05_msg_only_from_own_peer_unfiltered_refuted.
+
+(* (3) for a server that is NOT root.  Partial: the hypothesis is that every peer's authorised uid:gid are the server's
+   own (same-user clients with the default authorisation, or auth_set(-1, -1, mode)) - then chown changes nothing and the
+   full at-any-moment statement holds for every umask, mode, interleaving.  What is missing for the full statement is
+   exactly the case refuted below. *)
+Theorem C05_private_at_any_moment_nonroot_partial : forall en tr (ps : nat -> peer) l,
+  (forall k, keep (a_uid (eff_auth (ps k))) (c_uid (srv en)) = c_uid (srv en) /\
+             keep (a_gid (eff_auth (ps k))) (c_gid (srv en)) = c_gid (srv en)) ->
+  (forall k, is_prefix (fsops (proj k l)) (peer_script Fixed tr (ps k))) ->
+  forall k t e, lookup t (l_fs (run en w_empty l k)) = Some e -> permitted (srv en) (authorised (ps k)) e.
+Proof. exact fixed_any_moment_nonroot_global. Qed.
+Print Assumptions C05_private_at_any_moment_nonroot_partial.
+
+(* non-root server (500:500) authorising another user (auth_set(1, 2, 0660)): every chown fails with EPERM and is
+   ignored by the code; the connection is accepted, the ring files end up 500:500 0660 (the server's group may read and
+   write what was authorised for gid 2), the authorised client cannot open them (its connect returns -EACCES), the
+   server's later tear-down leaves nothing.  The last conjunct: the same server with a same-user peer is fine. *)
+Theorem C05_private_at_any_moment_nonroot_refuted :
+  all_prefixes_ok nonroot_env Fixed Shm peer_auth_other = false /\
+  lookup TReqD (frun nonroot_env [] (admission_ops Fixed Shm peer_auth_other)) = Some (mkE 500 500 432%N false) /\
+  connect_result Shm peer_auth_other (lrun nonroot_env l_empty (admission_ops Fixed Shm peer_auth_other)) = - ADM_EACCES /\
+  frun nonroot_env [] (peer_script Fixed Shm peer_auth_other) = [] /\
+  all_prefixes_ok nonroot_env Fixed Shm (mkP (mkC 500 500) (mkC 500 500) 0 None false) = true.
+Proof. exact nonroot_refuted. Qed.
+Print Assumptions C05_private_at_any_moment_nonroot_refuted.
